@@ -358,6 +358,12 @@ lazy_static! {
         ansi_term_style: ansi_term::Color::Green.normal(),
         ..Style::new()
     };
+    // git's default color.diff.whitespace ("normal red" background): a changed line which
+    // consists of nothing but a whitespace error starts with this style.
+    pub static ref GIT_DEFAULT_WHITESPACE_ERROR_STYLE: Style = Style {
+        ansi_term_style: ansi_term::Style::new().on(ansi_term::Color::Red),
+        ..Style::new()
+    };
 }
 
 pub fn line_has_style_other_than(line: &str, styles: &[Style]) -> bool {
